@@ -23,7 +23,7 @@ import time
 
 from vf.core import Check, REPO, HarnessError, lean_str
 
-MODULES = ["Model.Expr", "Model.Parse", "Model.Gen", "Model.TimeFmt", "Generated.C01", "Proofs.ParseGen",
+MODULES = ["Model.Expr", "Model.Parse", "Model.Gen", "Model.TimeFmt", "Model.Engine", "Generated.C01", "Proofs.ParseGen",
            "Proofs.TimeFmt", "Properties.C01"]
 P = "SqlglotModel.Properties.C01."
 THEOREMS = [P + n for n in [
@@ -37,6 +37,11 @@ THEOREMS = [P + n for n in [
     "bnot_text_guard_separates",
     "neg_node_guard_counterexample",
     "bitwisenot_glue_witness",
+    "athena_engine_model_matches_source",
+    "athena_engine_choice_agrees",
+    "generated_athena_ctas_engines_agree",
+    "athena_engine_mismatch_witness",
+    "athena_select_only_variant_witness",
     "format_time_id",
     "format_time_no_key_start",
     "format_time_base",
@@ -248,6 +253,73 @@ def time_tables() -> dict:
     return out
 
 
+ATHENA_SHAPES = [
+    # (name, sample statement, first, kind, orReplace, body, nestedSelect)
+    ("ctas-none", "CREATE TABLE t (a INT)", "create", "table", False, "none", False),
+    ("ctas-select", "CREATE TABLE t AS SELECT a FROM b", "create", "table", False, "select", False),
+    ("ctas-setop", "CREATE TABLE t AS SELECT a FROM b UNION ALL SELECT c FROM d", "create", "table", False, "setop", False),
+    ("ctas-except", "CREATE TABLE t AS SELECT a FROM b EXCEPT SELECT c FROM d", "create", "table", False, "setop", False),
+    ("ctas-paren", "CREATE TABLE t AS (SELECT a FROM b)", "create", "table", False, "paren", False),
+    ("ctas-with", "CREATE TABLE t AS WITH c AS (SELECT a FROM b) SELECT * FROM c", "create", "table", False, "withq", False),
+    ("ctas-subquery", "CREATE TABLE t AS SELECT * FROM (SELECT a FROM b) AS s", "create", "table", False, "subquery", False),
+    ("ctas-values", "CREATE TABLE t AS VALUES (1, 2)", "create", "table", False, "values", False),
+    ("ctas-props-setop", "CREATE TABLE t WITH (format='PARQUET') AS SELECT a FROM b INTERSECT SELECT c FROM d", "create", "table", False, "setop", False),
+    ("cor-table-select", "CREATE OR REPLACE TABLE t AS SELECT a FROM b", "create", "table", True, "select", False),
+    ("table-check-subquery", "CREATE TABLE t (a INT, CONSTRAINT ck CHECK (EXISTS(SELECT 1)))", "create", "table", False, "none", True),
+    ("external-table", "CREATE EXTERNAL TABLE t (a INT) LOCATION 's3://b/p/'", "create", "externalTable", False, "none", False),
+    ("view-select", "CREATE VIEW v AS SELECT a FROM b", "create", "view", False, "select", False),
+    ("view-setop", "CREATE VIEW v AS SELECT a FROM b UNION SELECT c FROM d", "create", "view", False, "setop", False),
+    ("cor-view-select", "CREATE OR REPLACE VIEW v AS SELECT a FROM b", "create", "view", True, "select", False),
+    ("cor-view-values", "CREATE OR REPLACE VIEW v AS VALUES (1, 2)", "create", "view", True, "values", False),
+    ("schema", "CREATE SCHEMA s", "create", "schema", False, "none", False),
+    ("database", "CREATE DATABASE s", "create", "database", False, "none", False),
+    ("alter-table", "ALTER TABLE t ADD COLUMNS (b INT)", "alter", "table", False, "none", False),
+    ("drop-table", "DROP TABLE t", "drop", "table", False, "none", False),
+    ("drop-view", "DROP VIEW v", "drop", "view", False, "none", False),
+    ("drop-schema", "DROP SCHEMA s", "drop", "schema", False, "none", False),
+    ("describe", "DESCRIBE t", "describe", "table", False, "none", False),
+    ("select", "SELECT a FROM b", "other", "other", False, "select", False),
+    ("select-setop", "SELECT a FROM b UNION SELECT c FROM d", "other", "other", False, "setop", False),
+    ("insert-select", "INSERT INTO t SELECT a FROM b", "other", "other", False, "select", False),
+]
+
+
+def athena_shape_table(chk: Check) -> list:
+    """both engine decisions of the REAL code on one sample statement per shape"""
+    _, exp, Dialect, *_ = sg()
+    rows = []
+    try:
+        from sqlglot.generators.athena import _generate_as_hive
+        from sqlglot.tokens import TokenType
+
+        inst = Dialect.get_or_raise("athena")
+        hive_marker = TokenType.HIVE_TOKEN_STREAM
+    except Exception as ex:  # noqa
+        chk.broken.append({"kind": "translator", "what": f"C01 translator: structure changed: athena engine decision not found ({type(ex).__name__}: {ex})"})
+        return rows
+    import logging
+
+    lg = logging.getLogger("sqlglot")
+    lvl = lg.level
+    lg.setLevel(logging.CRITICAL)
+    try:
+        for name, sql, first, kind, orr, body, nested in ATHENA_SHAPES:
+            try:
+                toks = inst.tokenize(sql)
+                tok = bool(toks) and toks[0].token_type == hive_marker
+                tree = inst.parse(sql)[0]
+            except Exception as ex:  # noqa
+                chk.broken.append({"kind": "translator", "what": f"C01 translator: athena sample {name!r} does not parse: {type(ex).__name__}"})
+                continue
+            if isinstance(tree, exp.Command):
+                chk.broken.append({"kind": "translator", "what": f"C01 translator: athena sample {name!r} falls back to Command"})
+                continue
+            rows.append((name, first, kind, orr, body, nested, tok, bool(_generate_as_hive(tree))))
+    finally:
+        lg.setLevel(lvl)
+    return rows
+
+
 def lean_pairs(ps) -> str:
     return "[" + ", ".join("(" + ", ".join(lean_str(x) for x in p) + ")" for p in ps) + "]"
 
@@ -280,6 +352,7 @@ def translate(chk: Check, tabs: dict) -> str:
         "-- GENERATED by vf/props/c01.py from sqlglot/parser.py, sqlglot/parsers/*, sqlglot/generator.py, sqlglot/generators/*,",
         "-- sqlglot/dialects/dialect.py (live class attributes + ast). Do not edit.",
         "import SqlglotModel.Model.Expr",
+        "import SqlglotModel.Model.Engine",
         "namespace SqlglotModel.Generated.C01",
         "open SqlglotModel.Expr",
     ]
@@ -290,6 +363,12 @@ def translate(chk: Check, tabs: dict) -> str:
     lines.append("def baseTables : Tables := " + names[""])
     lines.append("def baseTimeMapping : List (String × String) := " + lean_pairs(tm[""][0]))
     lines.append("def baseInverseTimeMapping : List (String × String) := " + lean_pairs(base_inv))
+    rows = athena_shape_table(chk)
+    chk.cov["athena_engine_shapes"] = len(rows)
+    b = lambda x: "true" if x else "false"  # noqa
+    lines.append("/-- (shape name, shape, `_tokenize_as_hive` on the sample's tokens, `_generate_as_hive` on its parse) -/")
+    lines.append("def athenaShapes : List (String × SqlglotModel.Engine.Shape × Bool × Bool) := [" + ", ".join(
+        f"({lean_str(n)}, ⟨.{f}, .{k}, {b(o)}, .{bd}, {b(ns)}⟩, {b(t)}, {b(g)})" for n, f, k, o, bd, ns, t, g in rows) + "]")
     lines.append("end SqlglotModel.Generated.C01")
     chk.cov["distinct_table_sets"] = len(distinct)
     chk.cov["dialects"] = len(tabs)
@@ -703,6 +782,46 @@ def time_sweep(chk: Check, dialects: list, consider_fixed, deadline: float) -> N
     chk.cov["time_format_sweep"] = {"single_specifier_sources": n_single, "pair_sources": n_pair, "generated_spellings": n_gen}
 
 
+# ------------------------------------------------------------------------------------------ engine / mode switches
+def mode_switch_dialects() -> list:
+    """dialects that decide an engine / mode per statement on BOTH sides: their Tokenizer.tokenize, Parser.parse or
+    Generator.generate is overridden (today: athena, Hive vs Trino)"""
+    _, _, Dialect, _, Generator, Parser = sg()
+    from sqlglot.tokens import Tokenizer
+
+    out = []
+    for name in all_dialects():
+        try:
+            inst = Dialect.get_or_raise(name or None)
+        except Exception:  # noqa
+            continue
+        if (getattr(inst.tokenizer_class, "tokenize", None) is not Tokenizer.tokenize
+                or getattr(inst.parser_class, "parse", None) is not Parser.parse
+                or getattr(inst.generator_class, "generate", None) is not Generator.generate):
+            out.append(name)
+    return out
+
+
+ENGINE_S1 = "SELECT 'it''s' AS x, a[1] AS y, \"q c\", DATE_ADD('day', 1, d), CAST(z AS VARCHAR) || 'y' FROM \"b\""
+ENGINE_S2 = "SELECT 'b', c[1], z, d, 'w' FROM d2"
+ENGINE_BODIES = {
+    "select": ENGINE_S1, "union": f"{ENGINE_S1} UNION ALL {ENGINE_S2}", "except": f"{ENGINE_S1} EXCEPT {ENGINE_S2}",
+    "intersect": f"{ENGINE_S1} INTERSECT {ENGINE_S2}", "paren": f"({ENGINE_S1})", "paren-union": f"({ENGINE_S1} UNION {ENGINE_S2})",
+    "with": f"WITH c AS ({ENGINE_S1}) SELECT * FROM c", "with-union": f"WITH c AS ({ENGINE_S2}) {ENGINE_S1} UNION SELECT * FROM c",
+    "values": "VALUES (1, 'it''s')", "subquery": f"SELECT * FROM ({ENGINE_S1}) AS s", "subquery-union": f"SELECT * FROM ({ENGINE_S1} UNION {ENGINE_S2}) AS s",
+}
+ENGINE_WRAPPERS = ["CREATE TABLE t AS {b}", "CREATE TABLE IF NOT EXISTS t AS {b}", "CREATE TABLE t WITH (format='PARQUET') AS {b}",
+                   "CREATE TABLE \"T 1\" AS {b}", "CREATE VIEW v AS {b}", "CREATE OR REPLACE VIEW v AS {b}", "INSERT INTO t {b}", "{b}"]
+
+
+def engine_templates():
+    """every Query kind as the body of CTAS / VIEW / INSERT / bare statement, carrying the constructs two engines spell
+    differently (string with a quote, subscript, quoted identifier, DATE_ADD, ||)"""
+    for w in ENGINE_WRAPPERS:
+        for k, b in ENGINE_BODIES.items():
+            yield w.format(b=b)
+
+
 # prefix operator x operand whose rendering can start with the same character in SOME dialect (calls that dialects print
 # as infix/postfix operators with a signed first argument, signed literals)
 PREFIXES = ["-", "- ", "~", "~ ", "NOT ", "+"]
@@ -989,6 +1108,11 @@ def search(chk: Check, hints: list, tabs: dict, budget_s: float) -> None:
         for s in prod:
             consider_fixed(s, d)
     chk.cov["prefix_operator_product"] = {"sources": len(prod), "dialects": len(dialects), "wall_s": round(time.time() - t1, 1)}
+    msd = mode_switch_dialects()
+    chk.cov["mode_switch_dialects"] = msd
+    for d in msd:
+        for s in engine_templates():
+            consider_fixed(s, d)
     t1 = time.time()
     time_sweep(chk, dialects, consider_fixed, time.time() + chk.pick(40, 600))
     chk.cov["time_format_sweep"]["wall_s"] = round(time.time() - t1, 1)
@@ -1035,7 +1159,7 @@ def run(chk: Check) -> None:
         if proved:
             raise
         chk.note(f"model driver unavailable ({e}); continuing with the search on the real code")
-    budget = chk.pick(30, 300)
+    budget = chk.pick(24, 300)
     if chk.broken:
         budget *= 2
     search(chk, hints, tabs, budget)
